@@ -89,3 +89,31 @@ def exc_fail(prefix, exc):
     except Exception:  # an exception class whose __str__ itself fails
         msg = repr(exc.args)[:300]
     return Fail("%s/exc:%s@%s" % (prefix, type(exc).__name__, where), "%s: %s" % (type(exc).__name__, msg))
+
+
+def two_iterators(view, lag=0, norm=tuple):
+    """Rows seen by two live iterators over one view: A is first advanced `lag` items on its own, then B and A are advanced
+    in turn until both are exhausted.  Returns (rows_a, rows_b).  (Iterator independence is C01's business; the per-operator
+    checks use this so that state an operator keeps on the view - a shared buffer, counter or file position - is exercised
+    by their own generators too.)"""
+    a, b = iter(view), iter(view)
+    ra, rb = [], []
+    done_a = done_b = False
+    for _ in range(lag):
+        try:
+            ra.append(norm(next(a)))
+        except StopIteration:
+            done_a = True
+            break
+    while not (done_a and done_b):
+        if not done_b:
+            try:
+                rb.append(norm(next(b)))
+            except StopIteration:
+                done_b = True
+        if not done_a:
+            try:
+                ra.append(norm(next(a)))
+            except StopIteration:
+                done_a = True
+    return ra, rb
